@@ -1,5 +1,5 @@
 (* C03 - PartialEq is structural equality over variant and non-skipped fields. *)
-From DW Require Import Proofs_eq Proofs_frontend Examples.
+From DW Require Import Proofs_eq Proofs_frontend Proofs_laws Examples.
 
 (* For every accepted item and every attribute requesting PartialEq, the generated
    `eq` returns, for all pairs of values and for EVERY behaviour of the field types'
@@ -48,6 +48,27 @@ Check C03_std :
     variant_of it a = Some da -> variant_of it b = Some db -> incomparable_value it a = false ->
     spec_eq feq it a b = std_eq feq (v_idx a, project da PartialEq a) (v_idx b, project db PartialEq b).
 Print Assumptions C03_std.
+
+(* The sentence of the property in propositional form: `==` is true EXACTLY when both operands are the same
+   variant, neither the item nor that variant is marked incomparable, and the non-skipped fields are pairwise
+   equal through the field type's own `==` (any `feq`, no law assumed). *)
+Theorem C03_eq_true_iff :
+  forall (fval : Type) (feq : fval -> fval -> bool) (it : item) (a b : value fval),
+    wf_value it a -> wf_value it b ->
+    (spec_eq feq it a b = true <->
+       exists d, variant_of it a = Some d /\ variant_of it b = Some d /\ v_idx a = v_idx b /\
+         item_inc_flag it = false /\ d_incomparable d = false /\
+         Forall2 (fun x y => feq x y = true) (project d PartialEq a) (project d PartialEq b)).
+Proof. exact @spec_eq_true_iff. Qed.
+
+Check C03_eq_true_iff :
+  forall (fval : Type) (feq : fval -> fval -> bool) (it : item) (a b : value fval),
+    wf_value it a -> wf_value it b ->
+    (spec_eq feq it a b = true <->
+       exists d, variant_of it a = Some d /\ variant_of it b = Some d /\ v_idx a = v_idx b /\
+         item_inc_flag it = false /\ d_incomparable d = false /\
+         Forall2 (fun x y => feq x y = true) (project d PartialEq a) (project d PartialEq b)).
+Print Assumptions C03_eq_true_iff.
 
 (* Non-vacuity: a concrete accepted enum with a skipped field and concrete values meets every hypothesis,
    and a NaN-like field value is unequal to itself. *)
